@@ -106,3 +106,28 @@ package apk
 //@   ensures [C04] cut-segment-has-no-end-marker: implies(err == nil && kind == tarCut, globStr("compressedInput") == globStr("tarStreamAtClose") + ufStr("zeros", globInt("tarPadAtClose")))
 //@   ensures [C04] full-segment-ends-the-archive: implies(err == nil && kind == tarFull, globStr("compressedInput") == globStr("tarStreamAtClose") + ufStr("zeros", globInt("tarPadAtClose") + 1024))
 //@   ensures [C06] loud: implies(err == nil, !ghostFlag("failed"))
+//
+//@ import "encoding/hex"
+//
+//@ spec func apkScript(slot, path string) string {
+//@     if path == "" { return "" }
+//@     return ufStr("tarHead", slot, int64(0o755), int64(len(fsContent(path))), byte('0'), "", "", "", fsMTime(path)) + fsContent(path)
+//@ }
+//
+//@ spec func pkginfoItem(body string) string {
+//@     return ufStr("tarHead", ".PKGINFO", int64(0o600), int64(len(body)), byte(0), "", "", "", time.Time{}) + body
+//@ }
+//
+//@ import "time"
+//
+//@ inline func createBuilderControl$1(tw *tar.Writer) (err error) captures (info *nfpm.Info, size int64, dataDigest []byte)
+//@   requires info != nil && tw != nil
+//@   requires !ghostFlag("failed")
+//@   ensures [C09 C02 C03] control-segment-members: implies(err == nil, ghostStr(tw, "tarManifest") == old(ghostStr(tw, "tarManifest")) +
+//@       pkginfoItem(old(apkControl(info, size, hex.EncodeToString(dataDigest)))) +
+//@       apkScript(".post-deinstall", info.Scripts.PostRemove) +
+//@       apkScript(".post-install", info.Scripts.PostInstall) +
+//@       apkScript(".post-upgrade", info.APK.Scripts.PostUpgrade) +
+//@       apkScript(".pre-deinstall", info.Scripts.PreRemove) +
+//@       apkScript(".pre-install", info.Scripts.PreInstall) +
+//@       apkScript(".pre-upgrade", info.APK.Scripts.PreUpgrade))
